@@ -99,7 +99,7 @@ def monitor(case: str, out: str) -> list[str]:
     for tok in out.split():
         if tok.startswith("D") and tok[1:].isdigit():
             limit = int(tok[1:])
-            fails.add("logs.no-observation:desync")
+            fails.add("logs.unobservable:desync")
     recs: dict[int, list] = {}
     ids: dict[int, tuple[str, str, str]] = {}
     for tok in out.split():
